@@ -71,4 +71,16 @@ lookup. -/
 theorem lookups_load_the_table_once :
     lookupClosures = ["lookups=1:getTable=1", "lookups=1:getTable=1", "lookups=1:getTable=1"] := by decide
 
+/-- **Every lookup site of the repository loads the cell once** (round 4; `lookups_load_the_table_once` looked at the
+function literals of `main.go` only). Over all non-test packages: the innermost functions that call `route.GetTable`
+AND look a request up (`Lookup`/`LookupHost` on a table) are the three proxy closures of package main and the gRPC
+director of package proxy, each with ONE `GetTable` call per lookup — a second load in one of them, or a `Lookup`
+inside package route that re-reads the cell half-way (`routeGetTableCallers`), would answer one request from two
+tables; a site that stopped loading (a cached table) would never see the next valid configuration. Functions that
+load without looking up (admin API, dynamic TCP listeners, gRPC pool cleanup: `snapshotReaders`) are not constrained. -/
+theorem every_lookup_site_loads_once :
+    lookupSites = [".:getTable=1:lookups=1", ".:getTable=1:lookups=1", ".:getTable=1:lookups=1",
+                   "proxy:getTable=1:lookups=1"] ∧
+    routeGetTableCallers = [] := by decide
+
 end Fabio.Props.C02Facts
